@@ -55,44 +55,45 @@ def Node.isComment : Node → Bool
 def dumpTk (t : Tk) : String := t.type.name ++ ":" ++ (if t.lit.isEmpty then "-" else hexOfBytes t.lit)
 
 mutual
-/-- `noCom`: drop comment nodes that are direct members of a statement list (what compact printing omits) -/
-def Node.dump (noCom : Bool) : Node → String
+/-- `noCom`: drop comment nodes that are direct members of a statement list (what compact printing omits);
+`noFlags`: omit the two layout flags of comments -/
+def Node.dump (noCom noFlags : Bool) : Node → String
   | .ident t => "(Id " ++ dumpTk t ++ ")"
   | .intLit t => "(Int " ++ dumpTk t ++ ")"
   | .floatLit t => "(Float " ++ dumpTk t ++ ")"
   | .strLit t => "(Str " ++ dumpTk t ++ ")"
   | .boolean t => "(Bool " ++ dumpTk t ++ ")"
   | .control t => "(Ctl " ++ dumpTk t ++ ")"
-  | .comment t a b => "(Com " ++ dumpTk t ++ " " ++ boolStr a ++ boolStr b ++ ")"
-  | .ret t v => "(Ret " ++ dumpTk t ++ " " ++ dumpO noCom v ++ ")"
-  | .pre t r => "(Pre " ++ dumpTk t ++ " " ++ dumpO noCom r ++ ")"
+  | .comment t a b => "(Com " ++ dumpTk t ++ (if noFlags then "" else " " ++ boolStr a ++ boolStr b) ++ ")"
+  | .ret t v => "(Ret " ++ dumpTk t ++ " " ++ dumpO noCom noFlags v ++ ")"
+  | .pre t r => "(Pre " ++ dumpTk t ++ " " ++ dumpO noCom noFlags r ++ ")"
   | .post t p => "(Post " ++ dumpTk t ++ " " ++ dumpTk p ++ ")"
-  | .infix t l r => "(Inf " ++ dumpTk t ++ " " ++ dumpO noCom l ++ " " ++ dumpO noCom r ++ ")"
-  | .forE t c b => "(For " ++ dumpTk t ++ " " ++ dumpO noCom c ++ " " ++ dumpS noCom b ++ ")"
-  | .ifE t c a b => "(If " ++ dumpTk t ++ " " ++ dumpO noCom c ++ " " ++ dumpS noCom a ++ " " ++ dumpS noCom b ++ ")"
-  | .builtin t ps => "(Bi " ++ dumpTk t ++ " [" ++ dumpL noCom false ps ++ "])"
+  | .infix t l r => "(Inf " ++ dumpTk t ++ " " ++ dumpO noCom noFlags l ++ " " ++ dumpO noCom noFlags r ++ ")"
+  | .forE t c b => "(For " ++ dumpTk t ++ " " ++ dumpO noCom noFlags c ++ " " ++ dumpS noCom noFlags b ++ ")"
+  | .ifE t c a b => "(If " ++ dumpTk t ++ " " ++ dumpO noCom noFlags c ++ " " ++ dumpS noCom noFlags a ++ " " ++ dumpS noCom noFlags b ++ ")"
+  | .builtin t ps => "(Bi " ++ dumpTk t ++ " [" ++ dumpL noCom noFlags false ps ++ "])"
   | .func t n ps b v l => "(Fn " ++ dumpTk t ++ " " ++ (match n with | none => "nil" | some n => dumpTk n) ++ " [" ++
-      dumpL noCom false ps ++ "] " ++ dumpS noCom b ++ " " ++ boolStr v ++ boolStr l ++ ")"
-  | .call t f as => "(Call " ++ dumpTk t ++ " " ++ dumpO noCom f ++ " [" ++ dumpL noCom false as ++ "])"
-  | .array t es => "(Arr " ++ dumpTk t ++ " [" ++ dumpL noCom false es ++ "])"
-  | .index t l i => "(Idx " ++ dumpTk t ++ " " ++ dumpO noCom l ++ " " ++ dumpO noCom i ++ ")"
-  | .mapLit t kvs => "(Map " ++ dumpTk t ++ " [" ++ dumpL noCom false kvs ++ "])"
-  | .macroLit t ps b => "(Mac " ++ dumpTk t ++ " [" ++ dumpL noCom false ps ++ "] " ++ dumpS noCom b ++ ")"
-def dumpO (noCom : Bool) : Option Node → String
+      dumpL noCom noFlags false ps ++ "] " ++ dumpS noCom noFlags b ++ " " ++ boolStr v ++ boolStr l ++ ")"
+  | .call t f as => "(Call " ++ dumpTk t ++ " " ++ dumpO noCom noFlags f ++ " [" ++ dumpL noCom noFlags false as ++ "])"
+  | .array t es => "(Arr " ++ dumpTk t ++ " [" ++ dumpL noCom noFlags false es ++ "])"
+  | .index t l i => "(Idx " ++ dumpTk t ++ " " ++ dumpO noCom noFlags l ++ " " ++ dumpO noCom noFlags i ++ ")"
+  | .mapLit t kvs => "(Map " ++ dumpTk t ++ " [" ++ dumpL noCom noFlags false kvs ++ "])"
+  | .macroLit t ps b => "(Mac " ++ dumpTk t ++ " [" ++ dumpL noCom noFlags false ps ++ "] " ++ dumpS noCom noFlags b ++ ")"
+def dumpO (noCom noFlags : Bool) : Option Node → String
   | none => "nil"
-  | some n => n.dump noCom
+  | some n => n.dump noCom noFlags
 /-- elements, each preceded by a space; `stmts` says this is a statement list (comments droppable) -/
-def dumpL (noCom stmts : Bool) : List (Option Node) → String
+def dumpL (noCom noFlags stmts : Bool) : List (Option Node) → String
   | [] => ""
-  | none :: xs => " nil" ++ dumpL noCom stmts xs
-  | some n :: xs => (if noCom && stmts && n.isComment then "" else " " ++ n.dump noCom) ++ dumpL noCom stmts xs
-def dumpS (noCom : Bool) : Option (List (Option Node)) → String
+  | none :: xs => " nil" ++ dumpL noCom noFlags stmts xs
+  | some n :: xs => (if noCom && stmts && n.isComment then "" else " " ++ n.dump noCom noFlags) ++ dumpL noCom noFlags stmts xs
+def dumpS (noCom noFlags : Bool) : Option (List (Option Node)) → String
   | none => "nil"
-  | some l => "{" ++ dumpL noCom true l ++ "}"
+  | some l => "{" ++ dumpL noCom noFlags true l ++ "}"
 end
 
 /-- the program (`*ast.Statements` returned by ParseProgram, never nil) -/
-def dumpProgram (noCom : Bool) (p : NList) : String := dumpS noCom (some p)
+def dumpProgram (noCom noFlags : Bool) (p : NList) : String := dumpS noCom noFlags (some p)
 
 /-! ### no missing children (C08) -/
 mutual
